@@ -19,8 +19,11 @@
 (*                  nothing of the old call is left: the next call gets the full budget again   *)
 (*                  and must be retried                                                        *)
 (*   NoRetryOutside a status outside the conditions is never answered "retry" and ends the     *)
-(*                  sequence: what follows has at most a fresh budget (policy mode clears the   *)
-(*                  state, flows mode keeps the counter - both are allowed)                    *)
+(*                  sequence.  Policy mode (the remedy sees every response): nothing of the    *)
+(*                  call is left - a later non-new response is not retried, a new call starts  *)
+(*                  afresh.  Flows mode (the conditions are a Filter in front of the Retry     *)
+(*                  processor, which does not see such a response): what follows has at most   *)
+(*                  a fresh budget.                                                            *)
 (*   Isolation      an event of s changes B[s] only                                            *)
 (* The statement is silent about time: any passage of time may make the gateway forget a      *)
 (* sequence (policy mode keeps its state with a TTL), never more than that.                    *)
@@ -49,7 +52,7 @@ InCond(st) == \E i \in 1..Len(ranges) : ranges[i][1] <= st /\ st <= ranges[i][2]
 Eff(b, new, bud) == IF new THEN {bud} \cup (IF b >= 1 THEN {b} ELSE {}) ELSE {b}
 
 PolicyNext(Bs, cond, new, out, bud) ==
-    IF ~cond THEN (IF out = "noop" THEN Bs \cup {0} ELSE {})
+    IF ~cond THEN (IF out = "noop" THEN {0} ELSE {})         \* ends the sequence: no live call is left
     ELSE LET E == UNION {Eff(b, new, bud) : b \in Bs} IN
          IF out = "retry" THEN {e - 1 : e \in {x \in E : x >= 1}}
          ELSE IF out = "noop" THEN (IF 0 \in E THEN {0} ELSE {})
